@@ -15,6 +15,7 @@ import Model.MaskShapes
 import Proofs.Geometry
 import Proofs.GeometryLoops
 import Proofs.MaskShapes
+import Proofs.MaskShapesAbstract
 import Proofs.MaskShapesReal
 
 open Model
@@ -430,6 +431,37 @@ end shapes
 
 /-! ### (g, analytic form) over ℝ the code's own `sqrt / arctan2 / sin / cos / radians` tests produce the same
     masks as the polynomial tests the driver executes, and the inequality is the documented one. -/
+
+/-- (g6a) for ANY `sqrt, arctan2, sin, cos` meeting the contract `LibmSpec` (sqrt is the non-negative root on
+    non-negatives; `r·cos(arctan2 y x) = x`, `r·sin(arctan2 y x) = y`; angle-addition formulas) and any
+    `radians`, over any ordered field, each constructor run with the code's test equals the constructor run
+    with the polynomial test at `(cos (radians φ), sin (radians φ))`. -/
+theorem g_code_form_eq_polynomial_form_of_contract {α : Type} [Field α] [LinearOrder α]
+    [IsStrictOrderedRing α] {sqrt : α → α} {arctan2 : α → α → α} {sin cos : α → α}
+    (L : LibmSpec sqrt arctan2 sin cos) (radians : α → α) (shape : Nat × Nat) (s centre : α × α) :
+    (∀ r, Impl.shapeMask shape s centre (Impl.circularCode sqrt r) = Impl.maskCircular shape s centre r)
+    ∧ (∀ a b, Impl.shapeMask shape s centre (Impl.annularCode sqrt a b) = Impl.maskAnnular shape s centre a b)
+    ∧ (∀ a b c, Impl.shapeMask shape s centre (Impl.antiAnnularCode sqrt a b c)
+        = Impl.maskAntiAnnular shape s centre a b c)
+    ∧ (∀ major q angle,
+        Impl.shapeMask shape s centre (Impl.ellipticalCode sqrt arctan2 sin cos radians major q angle)
+          = Impl.maskElliptical shape s centre major q (cos (radians angle), sin (radians angle)))
+    ∧ (∀ ri qi ai ro qo ao,
+        Impl.shapeMask shape s centre
+            (Impl.ellipticalAnnularCode sqrt arctan2 sin cos radians ri qi ai ro qo ao)
+          = Impl.maskEllipticalAnnular shape s centre ri qi (cos (radians ai), sin (radians ai))
+              ro qo (cos (radians ao), sin (radians ao))) := by
+  refine ⟨fun r => ?_, fun a b => ?_, fun a b c => ?_, fun major q angle => ?_,
+    fun ri qi ai ro qo ao => ?_⟩
+  · unfold Impl.maskCircular; congr 1; funext ys xs; exact L.circular r ys xs
+  · unfold Impl.maskAnnular; congr 1; funext ys xs; exact L.annular a b ys xs
+  · unfold Impl.maskAntiAnnular; congr 1; funext ys xs; exact L.antiAnnular a b c ys xs
+  · unfold Impl.maskElliptical; congr 1; funext ys xs; exact L.elliptical radians major q angle ys xs
+  · unfold Impl.maskEllipticalAnnular; congr 1; funext ys xs
+    exact L.ellipticalAnnular radians ri qi ai ro qo ao ys xs
+
+/-- (g6b) the contract is met by `Real.sqrt`, `arctan2 y x := Complex.arg ⟨x, y⟩`, `Real.sin`, `Real.cos`. -/
+theorem libm_contract_real : LibmSpec Real.sqrt realArctan2 Real.sin Real.cos := libmSpec_real
 
 /-- (g6) with `sqrt := Real.sqrt`, `arctan2 y x := Complex.arg ⟨x, y⟩`, `sin/cos := Real.sin/Real.cos`,
     `radians a := a·π/180`, each constructor run with the code's test equals the constructor run with the
